@@ -121,11 +121,11 @@ Inductive Reach (c : cfg) : scr -> term -> option canvas -> bool -> Prop :=
   | R_draw s t last shown content cursor toks s' :
       Reach c s t last shown ->
       canvas_ok c (t_cols t) (t_rows t) content -> cursor_ok (t_cols t) (t_rows t) cursor ->
-      draw_screen c s (t_cols t) (t_rows t) content cursor false = Ok (toks, s') ->
+      draw_screen c s (t_cols t) (t_rows t) content cursor false false = Ok (toks, s') ->
       Reach c s' (run t toks) (Some (content, cursor)) true
   | R_redraw s t shown content cursor toks s' :            (* the same canvas object again *)
       Reach c s t (Some (content, cursor)) shown ->
-      draw_screen c s (t_cols t) (t_rows t) content cursor true = Ok (toks, s') ->
+      draw_screen c s (t_cols t) (t_rows t) content cursor true false = Ok (toks, s') ->
       Reach c s' (run t toks) (Some (content, cursor)) true
   | R_clear s t last shown t' :                            (* Screen.clear(), terminal content unknown *)
       Reach c s t last shown -> same_but_cells t t' ->
@@ -139,7 +139,7 @@ Fixpoint run_draws (c : cfg) (s : scr) (t : term) (frames : list canvas) : optio
   match frames with
   | [] => Some (s, t)
   | (content, cursor) :: r =>
-      match draw_screen c s (t_cols t) (t_rows t) content cursor false with
+      match draw_screen c s (t_cols t) (t_rows t) content cursor false false with
       | Ok (toks, s') => run_draws c s' (run t toks) r
       | Err _ => None
       end
@@ -160,7 +160,7 @@ Definition is_blank (row : crow) : bool := match is_blank_row row with Ok b => b
 (* a canvas row that is blank may never have been painted (urwid leaves blank lines off the display):
    then only its text is demanded; any other row is demanded in full *)
 Definition row_shows_partial (c : cfg) (row : crow) (trow : list cell) : Prop :=
-  row_shows c row trow \/ (is_blank row = true /\ blank_row_text trow /\ zlen trow = row_width row).
+  row_shows c row trow \/ (is_blank row = true /\ blank_row_text trow).
 (* the rows 0.._rows_used of the canvas are shown; the rows below are blank in the canvas and on the terminal *)
 Definition PaintsPartial (c : cfg) (s : scr) (t : term) (content : list crow) (cursor : option (Z * Z)) : Prop :=
   (exists ru, s_ru s = Some ru /\ 0 <= ru /\
@@ -168,3 +168,14 @@ Definition PaintsPartial (c : cfg) (s : scr) (t : term) (content : list crow) (c
        (y <= ru -> row_shows_partial c row (get_row (t_grid t) y)) /\
        (ru < y -> is_blank row = true /\ blank_row_text (get_row (t_grid t) y))) /\
   cursor_shown t cursor /\ t_scrolled t = false.
+
+(* ---------- the Screen / terminal invariant in partial display mode ---------- *)
+Definition SyncP (c : cfg) (s : scr) (t : term) : Prop :=
+  exists ru, s_ru s = Some ru /\ 0 <= ru < t_rows t /\ s_resized s = false /\ term_ok t /\
+  t_irm t = false /\ t_scrolled t = false /\ t_ibm t = false /\ (g_utf8 c = true -> t_so t = false) /\
+  (s_g1 s = true -> t_g1 t = true) /\ (g_bce c = true -> t_bce t = true) /\
+  t_y t = s_cy s /\ 0 <= s_cy s < t_rows t /\
+  (forall y, ru < y < t_rows t -> blank_row_text (get_row (t_grid t) y)) /\
+  (s_buf s <> [] -> forall y row, nthz (s_buf s) y = Some row ->
+       (y <= ru -> row_shows_partial c row (get_row (t_grid t) y)) /\ (ru < y -> is_blank row = true)).
+
